@@ -7,7 +7,7 @@
                       messages it is the message of guard s (stage 0 = any other error: an unmodelled library or
                       crypto step may fail before the guard is reached);
      model GPass   -> no guard message was observed (value, or an error of the code behind the guards). *)
-From Coq Require Import List NArith ZArith String Bool.
+From Coq Require Import List NArith ZArith String Ascii Bool.
 Import ListNotations.
 From VF Require Export common.Json common.Res C03.Model.
 Local Open Scope N_scope.
@@ -29,6 +29,11 @@ Inductive input :=
 | I8b (held : nat) (batch : Z).        (* message pickup batch-pickup *)
 
 Record case := { c_in : input; c_obs : obs }.
+
+(* byte strings are handed over as lower-case hex text (a long list literal is slow to read) *)
+Definition hexv (a : ascii) : N := let n := N_of_ascii a in if n <? 58 then n - 48 else n - 87.
+Fixpoint unhex (s : string) : list N :=
+  match s with String a (String b r) => (hexv a * 16 + hexv b) :: unhex r | _ => [] end.
 
 Definition all_ok : nat -> bool := fun _ => true.
 
